@@ -258,13 +258,18 @@ class MinerWatcher:
         # network layer and broadcast the block: the coinstate we serve to our peers must contain the block we just
         # found. We add it to the coinstate the network layer has at this moment, because that may have received
         # blocks from the network since we fetched ours.
-        chain_manager = self.network_thread.local_peer.chain_manager
-        self.coinstate = chain_manager.coinstate.add_block(block, int(time()))
-        chain_manager.set_coinstate(self.coinstate)
-        self.network_thread.local_peer.network_manager.broadcast_block(block)
+        # All of this happens under the networking thread's lock: otherwise a block that is being received at the same
+        # moment could overwrite the state we publish (or we its state), and the shared write and send buffers could
+        # be changed under our feet.
+        local_peer = self.network_thread.local_peer
+        with local_peer.lock:
+            chain_manager = local_peer.chain_manager
+            self.coinstate = chain_manager.coinstate.add_block(block, int(time()))
+            chain_manager.set_coinstate(self.coinstate)
+            local_peer.network_manager.broadcast_block(block)
 
-        self.network_thread.local_peer.disk_interface.save_block(block)
-        self.network_thread.local_peer.disk_interface.flush_blocks()
+            local_peer.disk_interface.save_block(block)
+            local_peer.disk_interface.flush_blocks()
 
         print(f"miner {miner_id} found block: {block_filename(block)}")
 
